@@ -228,6 +228,20 @@ reg('C15', True,
     '(listed).',
     'clang 14 AST/CFG of 7 units (three informed samplers, InformedSampler, ProlateHyperspheroid, RNG, GeometricEquations); Eigen expressions matched by shape only',
     'path-sensitive typestate over clang CFG + algebraic normal forms (integer division distinguished) + loop-coverage patterns')
-for _p in ['C16',
-           'C20']:
+reg('C16', True,
+    'Decides the clauses visible in the code: a state appended to a discrete geodesic (projection-based and atlas '
+    'spaces) carries a successful projection since its last write and a step measurement, taken after that '
+    'projection, within lambda*delta, and success means the remaining distance is within delta; motion validity is '
+    'isSatisfied(target) and reached; interpolation returns `from` or an element of a successfully computed '
+    'geodesic, which the lazy tangent-bundle variant projects first; the atlas sampler retry loops end with a '
+    'successful chart projection or the fallback copy for every retry budget 1..3 and every outcome sequence '
+    '(finite-domain interpretation with unsigned wrap-around); tolerance comparisons are dimensionally consistent '
+    '(squaredNorm against tol^2); the Newton verdict is read from a residual that is fresh with respect to the last '
+    'update of the iterate. Six known findings (replayed): all samplers of the constrained spaces call '
+    'enforceBounds after the projection, which clamps states off a manifold that the bounds cut. Not decided: '
+    'Newton convergence, that |f| <= tol means near the manifold, the lazy variant\'s intermediate states, the '
+    'discarded verdict of project() in ProjectedStateSampler (no failing input found; listed).',
+    'clang 14 AST/CFG of 6 units (constrained, projected, atlas, tangent-bundle spaces, AtlasChart, Constraint); constraint function and charts opaque',
+    'path-sensitive typestate over clang CFG + finite-domain abstract interpretation of the retry loops + provenance/dimension lints')
+for _p in ['C20']:
     reg(_p, False, '', '', '', PENDING)
